@@ -120,6 +120,44 @@ def cases(cfgs, max_ops=60, readonly_weight=1, prefix=True):
 
 # ----------------------------------------------------------------------------- live container
 
+class Unbound:
+    """Makes every call through the class: ``Unbound(t).get(k)`` is ``type(t).get(t, k)``.  Looking a method up on
+    the *instance* of a persistent class activates a ghost before the method runs, which hides a method that
+    forgets to activate the object itself; looking it up on the class does not."""
+    __slots__ = ('_t', '_c')
+
+    def __init__(self, t):
+        object.__setattr__(self, '_t', t)
+        object.__setattr__(self, '_c', type(t))
+
+    def __getattr__(self, name):
+        f = getattr(self._c, name)
+        t = self._t
+        return lambda *a, **kw: f(t, *a, **kw)
+
+    def __contains__(self, k):
+        return self._c.__contains__(self._t, k)
+
+    def __len__(self):
+        return self._c.__len__(self._t)
+
+    def __iter__(self):
+        return self._c.__iter__(self._t)
+
+    def __bool__(self):
+        f = getattr(self._c, '__bool__', None)
+        return f(self._t) if f is not None else self._c.__len__(self._t) != 0
+
+    def __getitem__(self, k):
+        return self._c.__getitem__(self._t, k)
+
+    def __setitem__(self, k, v):
+        return self._c.__setitem__(self._t, k, v)
+
+    def __delitem__(self, k):
+        return self._c.__delitem__(self._t, k)
+
+
 class Live:
     def __init__(self, cfg, impl=None, track_shape=True):
         self.cfg = cfg
@@ -155,6 +193,14 @@ class Live:
         self.arm = None         # callable(bool): arm/disarm probes around the real call only
         self.last_exc = None
         self.keywrap = None     # callable(key) -> key object handed to the container (HookKey)
+
+    def callee(self):
+        """what the calls are made on: the container, or - cfg['unbound'] - a proxy that makes every call through the
+        class (type(t).meth(t, ...)), so that no instance attribute access activates a ghost before the method's own
+        code runs"""
+        if self.cfg.get('unbound'):
+            return Unbound(self.t)
+        return self.t
 
     def close(self):
         if self._ns is not None:
@@ -237,7 +283,7 @@ class Live:
     def step(self, op):
         """Execute op on the real container and on the model."""
         name = op[0]
-        t, m = self.t, self.model
+        t, m = self.callee(), self.model
         call = None      # zero-arg callable on the real container
         post = None      # applied to the result outside the armed region (mode 'some')
         want = None
@@ -390,7 +436,7 @@ class Live:
                     r = t.__isub__(o)
                 else:
                     r = t.__ixor__(o)
-                return r is t
+                return r is self.t
             want = ('ok', True)
             cur = set(m)
             new = {'ior': cur | ks, 'iand': cur & ks, 'isub': cur - ks, 'ixor': cur ^ ks}[name]
